@@ -7,59 +7,59 @@ package absnfs
 
 //@ also AbsfsNFS.CreateWithContext
 //@ requires acInv(s.attrCache) && dirCacheApart(s)
-//@ ensures [caches-inv] {C14, C02} acInv(s.attrCache) && s.attrCache == old(s.attrCache) && dirCacheApart(s) && s.dirCache == old(s.dirCache)
+//@ ensures [caches-inv] {C26, C02} acInv(s.attrCache) && s.attrCache == old(s.attrCache) && dirCacheApart(s) && s.dirCache == old(s.dirCache)
 
 //@ also AbsfsNFS.Create
 //@ requires acInv(s.attrCache) && dirCacheApart(s)
-//@ ensures [caches-inv] {C14, C02} acInv(s.attrCache) && s.attrCache == old(s.attrCache) && dirCacheApart(s) && s.dirCache == old(s.dirCache)
+//@ ensures [caches-inv] {C26, C02} acInv(s.attrCache) && s.attrCache == old(s.attrCache) && dirCacheApart(s) && s.dirCache == old(s.dirCache)
 
 //@ also AbsfsNFS.RemoveWithContext
 //@ requires acInv(s.attrCache) && dirCacheApart(s)
-//@ ensures [caches-inv] {C14, C02} acInv(s.attrCache) && s.attrCache == old(s.attrCache) && dirCacheApart(s) && s.dirCache == old(s.dirCache)
+//@ ensures [caches-inv] {C26, C02} acInv(s.attrCache) && s.attrCache == old(s.attrCache) && dirCacheApart(s) && s.dirCache == old(s.dirCache)
 
 //@ also AbsfsNFS.Remove
 //@ requires acInv(s.attrCache) && dirCacheApart(s)
-//@ ensures [caches-inv] {C14, C02} acInv(s.attrCache) && s.attrCache == old(s.attrCache) && dirCacheApart(s) && s.dirCache == old(s.dirCache)
+//@ ensures [caches-inv] {C26, C02} acInv(s.attrCache) && s.attrCache == old(s.attrCache) && dirCacheApart(s) && s.dirCache == old(s.dirCache)
 
 //@ also AbsfsNFS.RenameWithContext
 //@ requires acInv(s.attrCache) && dirCacheApart(s)
-//@ ensures [caches-inv] {C14, C02} acInv(s.attrCache) && s.attrCache == old(s.attrCache) && dirCacheApart(s) && s.dirCache == old(s.dirCache)
+//@ ensures [caches-inv] {C26, C02} acInv(s.attrCache) && s.attrCache == old(s.attrCache) && dirCacheApart(s) && s.dirCache == old(s.dirCache)
 
 //@ also AbsfsNFS.Rename
 //@ requires acInv(s.attrCache) && dirCacheApart(s)
-//@ ensures [caches-inv] {C14, C02} acInv(s.attrCache) && s.attrCache == old(s.attrCache) && dirCacheApart(s) && s.dirCache == old(s.dirCache)
+//@ ensures [caches-inv] {C26, C02} acInv(s.attrCache) && s.attrCache == old(s.attrCache) && dirCacheApart(s) && s.dirCache == old(s.dirCache)
 
 //@ also AbsfsNFS.Symlink
 //@ requires acInv(s.attrCache) && dirCacheApart(s)
-//@ ensures [caches-inv] {C14, C02} acInv(s.attrCache) && s.attrCache == old(s.attrCache) && dirCacheApart(s) && s.dirCache == old(s.dirCache)
+//@ ensures [caches-inv] {C26, C02} acInv(s.attrCache) && s.attrCache == old(s.attrCache) && dirCacheApart(s) && s.dirCache == old(s.dirCache)
 
 //@ also AbsfsNFS.SetAttr
 //@ requires acInv(s.attrCache) && dirCacheApart(s)
-//@ ensures [caches-inv] {C14, C02} acInv(s.attrCache) && s.attrCache == old(s.attrCache) && dirCacheApart(s) && s.dirCache == old(s.dirCache)
+//@ ensures [caches-inv] {C26, C02} acInv(s.attrCache) && s.attrCache == old(s.attrCache) && dirCacheApart(s) && s.dirCache == old(s.dirCache)
 
 //@ also AbsfsNFS.ReadWithContext
 //@ requires acInv(s.attrCache) && dirCacheApart(s)
-//@ ensures [caches-inv] {C14, C02} acInv(s.attrCache) && s.attrCache == old(s.attrCache) && dirCacheApart(s) && s.dirCache == old(s.dirCache)
+//@ ensures [caches-inv] {C26, C02} acInv(s.attrCache) && s.attrCache == old(s.attrCache) && dirCacheApart(s) && s.dirCache == old(s.dirCache)
 
 //@ also AbsfsNFS.Read
 //@ requires acInv(s.attrCache) && dirCacheApart(s)
-//@ ensures [caches-inv] {C14, C02} acInv(s.attrCache) && s.attrCache == old(s.attrCache) && dirCacheApart(s) && s.dirCache == old(s.dirCache)
+//@ ensures [caches-inv] {C26, C02} acInv(s.attrCache) && s.attrCache == old(s.attrCache) && dirCacheApart(s) && s.dirCache == old(s.dirCache)
 
 //@ also AbsfsNFS.Readlink
 //@ requires acInv(s.attrCache) && dirCacheApart(s)
-//@ ensures [caches-inv] {C14, C02} acInv(s.attrCache) && s.attrCache == old(s.attrCache) && dirCacheApart(s) && s.dirCache == old(s.dirCache)
+//@ ensures [caches-inv] {C26, C02} acInv(s.attrCache) && s.attrCache == old(s.attrCache) && dirCacheApart(s) && s.dirCache == old(s.dirCache)
 
 //@ also AbsfsNFS.LookupWithContext
 // (a lookup or attribute read works on the attribute cache only: the directory cache stays as it is)
-//@ ensures [dircache-kept] {C14, C02, C26} old(dirCacheApart(s)) ==> dirCacheApart(s) && s.dirCache == old(s.dirCache)
+//@ ensures [dircache-kept] {C26, C02} old(dirCacheApart(s)) ==> dirCacheApart(s) && s.dirCache == old(s.dirCache)
 
 //@ also AbsfsNFS.Lookup
 // (a lookup or attribute read works on the attribute cache only: the directory cache stays as it is)
-//@ ensures [dircache-kept] {C14, C02, C26} old(dirCacheApart(s)) ==> dirCacheApart(s) && s.dirCache == old(s.dirCache)
+//@ ensures [dircache-kept] {C26, C02} old(dirCacheApart(s)) ==> dirCacheApart(s) && s.dirCache == old(s.dirCache)
 
 //@ also AbsfsNFS.GetAttr
 // (a lookup or attribute read works on the attribute cache only: the directory cache stays as it is)
-//@ ensures [dircache-kept] {C14, C02, C26} old(dirCacheApart(s)) ==> dirCacheApart(s) && s.dirCache == old(s.dirCache)
+//@ ensures [dircache-kept] {C26, C02} old(dirCacheApart(s)) ==> dirCacheApart(s) && s.dirCache == old(s.dirCache)
 
 //@ also AbsfsNFS.CreateWithContext
 //@ ensures [node-with-attrs] {C14, C04} isnil(result1) ==> result0 != nil && result0.attrs != nil
